@@ -359,8 +359,30 @@ static std::string do_hash(int n,std::string const &k)
 	return std::to_string(hashers[n]->h(k));
 }
 
+// ------------------------------------------------------------------ watchdog
+// A blocking read of the real client that never completes (peer and client out of step) must not stall the check:
+// if one line takes longer than 20 s of real time the harness reports it and exits (status 5).
+static std::atomic<long long> op_started(0);
+static long long mono_ms() { timespec ts; clock_gettime(CLOCK_MONOTONIC,&ts); return ts.tv_sec*1000LL+ts.tv_nsec/1000000; }
+static void *watchdog(void *)
+{
+	for(;;) {
+		usleep(200000);
+		long long st=op_started.load();
+		if(st && mono_ms()-st>20000) {
+			char const msg[]="hang: no answer from the real code within 20 s\n";
+			ssize_t r=write(1,msg,sizeof(msg)-1); (void)r;
+			_exit(5);
+		}
+	}
+	return 0;
+}
+struct op_scope { op_scope(){ op_started=mono_ms(); } ~op_scope(){ op_started=0; } };
+
 // ------------------------------------------------------------------ line protocol
-static std::string run(std::vector<std::string> const &w)
+static std::string run1(std::vector<std::string> const &w);
+static std::string run(std::vector<std::string> const &w) { op_scope g; return run1(w); }
+static std::string run1(std::vector<std::string> const &w)
 {
 	if(w.empty()) return "bad-op";
 	if(w[0]=="cfg" && w.size()==3) return do_cfg(w[1],w[2]);
@@ -420,6 +442,7 @@ static std::string run(std::vector<std::string> const &w)
 
 int main()
 {
+	pthread_t wd; pthread_create(&wd,0,watchdog,0); pthread_detach(wd);
 	int r=vh::drive(run);
 	peer_client.reset();
 	drop_cluster();
